@@ -1,7 +1,7 @@
 """C14 - Locate returns exactly the permitted, matching objects, newest first."""
 import ast
 
-from ..astutil import U, dotted, walk_local, is_self_attr, call_name, short, enum_member, params
+from ..astutil import U, dotted, walk_local, is_self_attr, call_name, short, enum_member, params, get_class
 from ..cfg import CFG, calls_at, expr_nodes
 from ..dataflow import ReachingDefs, node_of_expr
 from ..guards import call_nodes, dominating_edges, cmp_parts, edge_successors
@@ -143,6 +143,85 @@ def fold_page_selection(ctx, fn, sort_call, resp_call, pay):
         return None
     ctx.count('page_selections_folded', n)
     return (bad is None, bad or 'folded for %d offset/maximum combinations' % n)
+
+
+def fold_filter_predicates(ctx, m, fn, IL, pattr, objv, flag, site):
+    """C14.R10: the body of the per-attribute loop of Locate folded, one filter attribute at a time, over small concrete stored / requested
+    values: the object is rejected (flag lowered) exactly when the stored value does not satisfy the filter.  The getter and the attribute
+    policy are modelled (stored value given; supported and applicable), everything else is the code as written."""
+    import itertools
+    from ..fold import Folder, Unfoldable, Raised, Opaque, Enum
+    from ..polmodel import enum_table
+    ctx.rule('C14.R10', 'the per-attribute match test of Locate, folded for one filter attribute at a time over small concrete values (the attribute getter and the applicability tests are modelled, the rest is the code as written): Cryptographic Usage Mask - every requested subset of three flags against every stored subset: the object is kept iff ALL requested bits are set; the plain-equality attributes (State, Object Type, Cryptographic Algorithm, Cryptographic Length, Operation Policy Name, Unique Identifier, Certificate Type, Sensitive): kept iff equal; Object Group: kept iff the requested group is one of the stored groups')
+    body = IL.stmt.body
+    masks = enum_table(ctx.src, 'CryptographicUsageMask')
+    from ..polmodel import all_enum_tables
+    all_enums = all_enum_tables(ctx.src)
+    FLAGS = ('SIGN', 'ENCRYPT', 'DECRYPT')
+    ctx.need(all(k in masks for k in FLAGS), 'anchor vanished: CryptographicUsageMask members')
+    cls = get_class(ctx.src.tree(ENGINE), 'KmipEngine')
+    class_consts = {}
+    n = 0
+    bad = []
+    unfold = []
+
+    def run_one(name, stored, requested):
+        f = Folder(steps=40000)
+        f.enum_tables = {k_: list(v_) for k_, v_ in all_enums.items()}
+        f.enum_values = {k_: dict(v_) for k_, v_ in all_enums.items()}
+        f.module = ctx.src.tree(ENGINE)
+        f.models['enums.get_enumerations_from_bit_mask'] = lambda e_, mk: [Enum('CryptographicUsageMask', k) for k, v in masks.items() if isinstance(v, int) and v and (v & mk) == v]
+        f.models['self._get_attribute_from_managed_object'] = lambda *a, **k: stored
+        f.models['self._attribute_policy.is_attribute_supported'] = lambda *a: True
+        f.models['self._attribute_policy.is_attribute_applicable_to_object_type'] = lambda *a: True
+        f.models['policy.is_attribute_supported'] = lambda *a: True
+        f.models['policy.is_attribute_applicable_to_object_type'] = lambda *a: True
+        selfv = {'__attrs__': ('_logger', '_attribute_policy'), '_logger': Opaque('logger'), '_attribute_policy': Opaque('attribute policy')}
+        for st_ in cls.body:
+            if isinstance(st_, ast.Assign) and len(st_.targets) == 1 and isinstance(st_.targets[0], ast.Name):
+                try:
+                    selfv[st_.targets[0].id] = f.ev(st_.value, {})
+                    selfv['__attrs__'] += (st_.targets[0].id,)
+                except (Unfoldable, Raised):
+                    pass
+        env = {'self': selfv, flag: True,
+               objv: {'__attrs__': ('object_type', 'unique_identifier'), 'object_type': Opaque('object type'), 'unique_identifier': 1},
+               pattr: {'__attrs__': ('attribute_name', 'attribute_value'), 'attribute_name': {'__attrs__': ('value',), 'value': name},
+                       'attribute_value': {'__attrs__': ('value',), 'value': requested}}}
+        r = f.run(body, env)
+        return env[flag]
+    eq_values = {'State': ('A', 'B'), 'Object Type': ('A', 'B'), 'Cryptographic Algorithm': ('A', 'B'), 'Cryptographic Length': (128, 256), 'Operation Policy Name': ('p', 'q'),
+                 'Unique Identifier': ('1', '2'), 'Certificate Type': ('A', 'B'), 'Sensitive': (True, False)}
+    cases = []
+    subsets = [c for k in range(0, 4) for c in itertools.combinations(FLAGS, k)]
+    for req in subsets[1:]:
+        for sto in subsets:
+            cases.append(('Cryptographic Usage Mask', [Enum('CryptographicUsageMask', k) for k in sto], sum(masks[k] for k in req), set(req) <= set(sto), 'requested %s, stored %s' % ('|'.join(req), '|'.join(sto) or 'none')))
+    for nm, (a, b) in eq_values.items():
+        cases.append((nm, a, a, True, 'requested = stored'))
+        cases.append((nm, a, b, False, 'requested differs from stored'))
+    cases.append(('Object Group', ['g1', 'g2'], 'g2', True, 'requested group is the second stored group'))
+    cases.append(('Object Group', ['g1', 'g2'], 'g3', False, 'requested group is not stored'))
+    cases.append(('Object Group', [], 'g1', False, 'object in no group'))
+    for nm, sto, req, want, what in cases:
+        try:
+            kept = run_one(nm, sto, req)
+        except Unfoldable as ex:
+            unfold.append((nm, str(ex)))
+            continue
+        except Raised as ex:
+            bad.append('%s (%s): raises %s' % (nm, what, ex.name))
+            continue
+        n += 1
+        if bool(kept) != want:
+            bad.append('%s (%s): the object is %s, expected %s' % (nm, what, 'kept' if kept else 'rejected', 'kept' if want else 'rejected'))
+    ctx.count('filter_predicate_cases_folded', n)
+    mask_unfold = [u for u in unfold if u[0] == 'Cryptographic Usage Mask']
+    ctx.need(not mask_unfold, 'unrecognised construct: the usage-mask arm of Locate cannot be folded (%s)' % (mask_unfold[:1],))
+    if unfold:
+        ctx.note('C14.R10: not folded (decided by the shape rules R3/R5 only): %s' % sorted(set(u[0] for u in unfold)))
+    ctx.check(not bad, 'C14.R10', 'KmipEngine._process_locate|filter predicate', site, '%d stored/requested combinations: rejected exactly when the filter is not satisfied' % n,
+              'the per-attribute match test of Locate keeps or rejects the wrong objects: %s' % '; '.join(bad[:4]))
 
 def run(ctx):
     src = ctx.src
@@ -291,6 +370,8 @@ def run(ctx):
     ctx.need(isinstance(gc._parent, ast.Assign) and len(gc.args) == 2 and isinstance(gc.args[0], ast.Name) and gc.args[0].id == objv and isinstance(gc.args[1], ast.Name) and gc.args[1].id == namev,
              'unrecognised construct: getter call arguments %s' % U(gc))
     stored = gc._parent.targets[0].id
+    if flag:
+        fold_filter_predicates(ctx, m, fn, IL, pattr, objv, flag, site0)
     at = enum_table(src, 'AttributeType')
     kinds = getter_kinds(m)
     gf = getter_fields(m)
